@@ -306,6 +306,49 @@ Lemma steps_mono (R R' : fsT -> fsT -> Prop) {A} (m : M A) :
   (forall f f', R f f' -> R' f f') -> steps R m -> steps R' m.
 Proof. intros H Hm s. apply H, Hm. Qed.
 
+(* ------------------------------------------------------------------ the chain, on disk and as probed *)
+Lemma ancestors_static fuel m m0 : map static m = map static m0 ->
+  forall n acc acc0, map static acc = map static acc0 ->
+  match ancestors_and_self fuel m n acc, ancestors_and_self fuel m0 n acc0 with
+  | Some a, Some b => map static a = map static b
+  | None, None => True
+  | _, _ => False
+  end.
+Proof.
+  intros Hm. induction fuel as [|fuel IH]; intros n acc acc0 Ha; cbn [ancestors_and_self].
+  - destruct n; [exact Ha|exact I].
+  - destruct n as [|a n']; [exact Ha|].
+    pose proof (lm_get_static m m0 (a :: n') Hm) as Hg.
+    destruct (lm_get m (a :: n')) as [l|], (lm_get m0 (a :: n')) as [l0|]; try contradiction; [|exact I].
+    rewrite (static_base _ _ Hg). apply IH. cbn [map]. rewrite Hg, Ha. reflexivity.
+Qed.
+
+Lemma ancestors_props fuel m : forall n acc ch, ancestors_and_self fuel m n acc = Some ch ->
+  forall x, In x ch -> In x acc \/ (lm_get m (l_name x) = Some x /\ l_name x <> []).
+Proof.
+  induction fuel as [|fuel IH]; intros n acc ch H x Hx; cbn [ancestors_and_self] in H.
+  - destruct n; [injection H as <-; now left|discriminate].
+  - destruct n as [|a n']; [injection H as <-; now left|].
+    destruct (lm_get m (a :: n')) as [l|] eqn:El; [|discriminate].
+    destruct (IH _ _ _ H x Hx) as [[<-|Hin]|Hr]; auto.
+    right. destruct (lm_get_in _ _ _ El) as [_ Hn]. rewrite Hn. split; [exact El|discriminate].
+Qed.
+
+Lemma links_ok_static c x x0 f : static x = static x0 -> links_ok c x f -> links_ok c x0 f.
+Proof.
+  unfold links_ok, C16.explicit_target. intros Hs.
+  rewrite (static_name _ _ Hs), (static_path _ _ Hs), (static_exports _ _ Hs). auto.
+Qed.
+
+Lemma exports_simple_static x x0 : static x = static x0 -> exports_simple x = exports_simple x0.
+Proof. unfold exports_simple. intros Hs. rewrite (static_exports _ _ Hs). reflexivity. Qed.
+
+Lemma in_map_static x l l0 : map static l = map static l0 -> In x l -> exists x0, In x0 l0 /\ static x0 = static x.
+Proof.
+  intros Hm Hx. apply (in_map static) in Hx. rewrite Hm in Hx. apply in_map_iff in Hx as (x0 & Hs & Hin).
+  exists x0. auto.
+Qed.
+
 Section Chain.
 Variable c : cfgT.
 Variable e : env.
@@ -609,5 +652,48 @@ Proof.
     + apply beq_false in Eb.
       apply (hoare_steps (FP (lks (l_name y))) _ (links_ok c x)); [apply stepsFP_mes; assumption|].
       intros f f'. apply links_FP_other; assumption.
+Qed.
+
+Lemma mount_layer_post ld f0 n :
+  map static (ld_map ld) = map static (read_layer_files c f0) -> ld_ok c ld ->
+  (forall x0, In x0 (LCS.chain c f0 n) -> exports_simple x0 = true) ->
+  hoareR (fun _ => True) (mount_layer e c ld n)
+         (fun _ s => forall x0, In x0 (LCS.chain c f0 n) -> links_ok c x0 (fsof s)).
+Proof.
+  intros Hm Hld Hsim. unfold mount_layer. apply hoare_guard_bind. intros Hg.
+  destruct (lm_get (ld_map ld) n) as [l|]; [|apply hoare_panic].
+  eapply hoare_bind; [apply hoare_pres, pres_guard|intros u; cbv beta].
+  destruct (ancestors_and_self (S (length (ld_map ld))) (ld_map ld) n []) as [ch|] eqn:Ech; [|apply hoare_diverge].
+  pose proof (ancestors_static (S (length (ld_map ld))) _ _ Hm n [] [] eq_refl) as Hst. rewrite Ech in Hst.
+  assert (Hlen : length (ld_map ld) = length (read_layer_files c f0)).
+  { apply (f_equal (@length _)) in Hm. rewrite !map_length in Hm. exact Hm. }
+  unfold LCS.chain, LCS.layers_on_disk in *. rewrite <- Hlen in *.
+  destruct (ancestors_and_self (S (length (ld_map ld))) (read_layer_files c f0) n []) as [ch0|]; [|contradiction].
+  eapply hoare_bind; [apply hoare_true|intros ld1; cbv beta].
+  eapply hoare_bind; [apply hoare_true|intros ld2; cbv beta].
+  eapply hoare_bind; [apply (chain_links (ld_map ld) ch)|].
+  - intros x Hx. destruct (ancestors_props _ _ _ _ _ Ech x Hx) as [[]|[Hg1 Hne]].
+    destruct (lm_get_in _ _ _ Hg1) as [Hin _]. destruct (Hld x Hin) as (Hleg & Hpath & _).
+    split; [exact Hg1|]. split; [split; assumption|]. split; [exact Hpath|].
+    destruct (in_map_static x ch ch0 Hst Hx) as (x0 & Hx0 & Hs).
+    rewrite <- (exports_simple_static x0 x Hs). apply Hsim, Hx0.
+  - intros u0. cbv beta. apply hoare_ret'. intros s H x0 Hx0.
+    destruct (in_map_static x0 ch0 ch (eq_sym Hst) Hx0) as (x & Hx & Hs).
+    apply (links_ok_static c x x0 _ Hs). apply H, Hx.
+Qed.
+
+Lemma run_mount_post um n f0 :
+  (forall x0, In x0 (LCS.chain c f0 n) -> exports_simple x0 = true) ->
+  hoareR (fun s => fsof s = f0) (run_command e c um (CMount n))
+         (fun _ s => forall x0, In x0 (LCS.chain c f0 n) -> links_ok c x0 (fsof s)).
+Proof.
+  intros Hsim s b s2 Hs Hr. cbn [run_command] in Hr.
+  destruct (bind_ret_inv _ _ _ _ _ Hr) as (f & s1 & H1 & H2). unfold get_fs in H1. injection H1 as _ <-.
+  destruct (bind_ret_inv _ _ _ _ _ H2) as (u & s3 & H3 & H4).
+  pose proof (pres_guard (base_set_up c f) s) as Hp. rewrite H3 in Hp. cbn [snd] in Hp. subst s3.
+  destruct (bind_ret_inv _ _ _ _ _ H4) as (ld & s4 & H5 & H6).
+  destruct (get_layers_ret c um s ld s4 H5) as [-> Hm]. destruct (get_layers_ok c um s ld s H5) as [_ Hld].
+  destruct (bind_ret_inv _ _ _ _ _ H6) as (ld' & s5 & H7 & H8). unfold ret in H8. injection H8 as _ <-.
+  rewrite Hs in Hm. exact (mount_layer_post ld f0 n Hm Hld Hsim s ld' s5 I H7).
 Qed.
 End Chain.
